@@ -27,12 +27,18 @@ KIND_TOKEN = {"string": ["str"], "integer": ["int"], "date": ["date"], "datetime
               "model_ref": ["Other"], "map": ["dict"]}
 
 
-def k_render(P, pname, ptype, required, sibling_type, sib_required):
+def k_render(P, pname, ptype, required, sibling_type, sib_required, last="zz"):
     thing, color, other = c01._schemas(P, pname, ptype, required, sibling_type)
+    if last != "zz":
+        # the third property is named like the de-collision suffix of the first one and is required (rendered first)
+        props = thing.properties
+        moved = props.pop("zz")
+        props[last] = moved
+        thing.required = list(thing.required) + [last]
     if len(thing.properties) != 3:
         return None
     if sib_required:
-        thing.required = list(thing.required) + ["aa", "zz"]
+        thing.required = list(thing.required) + ["aa"] + (["zz"] if last == "zz" else [])
     from props import c15
 
     return c15._model(P, thing, extra=[color, other])[0]
@@ -51,9 +57,9 @@ class RenderFidelity(Obligation):
     alphabet = ALPHA
     timeout_ms = 30000
 
-    def __init__(self, n, ptypes):
-        self.n, self.ptypes = n, list(ptypes)
-        self.name = "render_fidelity/name_len=%d/types=%s" % (n, "+".join(self.ptypes))
+    def __init__(self, n, ptypes, last="zz"):
+        self.n, self.ptypes, self.last = n, list(ptypes), last
+        self.name = "render_fidelity/name_len=%d/types=%s%s" % (n, "+".join(self.ptypes), "" if last == "zz" else "/last=" + last)
         self.bounds = {"property_name": "symbolic, %d characters over 'aAzZ-_1'" % n, "property_type": self.ptypes, "sibling_type": ["string", "array"],
                        "required": "solver-chosen for the property and for the siblings"}
 
@@ -62,7 +68,7 @@ class RenderFidelity(Obligation):
                 "sibling": ["string", "array"][e.choose(2, "sibling")], "sib_required": bool(e.choose(2, "sib_required"))}
 
     def _args(self, inp):
-        return (inp["pname"], inp["ptype"], inp["required"], inp["sibling"], inp["sib_required"])
+        return (inp["pname"], inp["ptype"], inp["required"], inp["sibling"], inp["sib_required"], self.last)
 
     def run_sym(self, inp):
         return call_catching(k_render, c01._I(), *self._args(inp))
@@ -83,7 +89,8 @@ class RenderFidelity(Obligation):
         if len(fields) != 3:
             return "%d fields for 3 properties: %r" % (len(fields), fields)
         load, dump = meta.get("key_transform_with_load"), meta.get("key_transform_with_dump")
-        want = [(inp["pname"], inp["ptype"], inp["required"]), ("aa", inp["sibling"], inp["sib_required"]), ("zz", inp["sibling"], inp["sib_required"])]
+        want = [(inp["pname"], inp["ptype"], inp["required"]), ("aa", inp["sibling"], inp["sib_required"]),
+                (self.last, inp["sibling"], inp["sib_required"] if self.last == "zz" else True)]
         if load is None:
             load = [(f.name, f.name) for f in fields]
             dump = list(load)
@@ -123,16 +130,17 @@ class RenderFidelity(Obligation):
             inp["pname"].simp() if is_sym(inp["pname"]) else inp["pname"], inp["ptype"], inp["required"], inp["sibling"], inp["sib_required"], self.verdict(inp, r))
 
 
-def mk(n, ptypes):
-    return RenderFidelity(n, ptypes)
+def mk(n, ptypes, last="zz"):
+    return RenderFidelity(n, ptypes, last)
 
 
 def specs(tier):
     if tier == "quick":
-        return [(MOD, "mk", (1, tuple(c01.PTYPES))), (MOD, "mk", (2, ("string", "array", "model_ref")))]
-    return [(MOD, "mk", (1, tuple(c01.PTYPES))), (MOD, "mk", (2, tuple(c01.PTYPES))), (MOD, "mk", (3, ("string", "array")))]
+        return [(MOD, "mk", (1, tuple(c01.PTYPES))), (MOD, "mk", (2, ("string", "array", "model_ref"))), (MOD, "mk", (2, ("string", "integer"), "aa_2"))]
+    return [(MOD, "mk", (1, tuple(c01.PTYPES))), (MOD, "mk", (2, tuple(c01.PTYPES))), (MOD, "mk", (3, ("string", "array"))), (MOD, "mk", (2, ("string", "integer"), "aa_2")),
+            (MOD, "mk", (3, ("string",), "aa_2"))]
 
 
 def replay_ob(v):
     parts = v["obligation"].split("/")
-    return RenderFidelity(int(parts[1].split("=")[1]), parts[2].split("=")[1].split("+"))
+    return RenderFidelity(int(parts[1].split("=")[1]), parts[2].split("=")[1].split("+"), parts[3].split("=")[1] if len(parts) > 3 else "zz")
